@@ -136,9 +136,11 @@ func (self Loader) LoadMany(items []LoadOneItem) (out []Function) {
 // and returns runnable function pointer
 // WARN: this API is experimental, use it carefully
 func Load(text []byte, funcs []Func, modulename string, filenames []string) (out []Function) {
-	ids := make([]string, len(funcs))
+	// remember each function's entry offset by position: makeModuledata sorts `funcs` in place, and
+	// names are not unique (distinct types may print identically), so results are mapped back by index
+	offs := make([]uint32, len(funcs))
 	for i, f := range funcs {
-		ids[i] = f.Name
+		offs[i] = f.EntryOff
 	}
 	// generate module data and allocate memory address
 	mod := makeModuledata(modulename, filenames, &funcs, text)
@@ -150,13 +152,9 @@ func Load(text []byte, funcs []Func, modulename string, filenames []string) (out
 	//
 	// encapsulate function address
 	out = make([]Function, len(funcs))
-	for i, s := range ids {
-		for _, f := range funcs {
-			if f.Name == s {
-				m := uintptr(mod.text + uintptr(f.EntryOff))
-				out[i] = Function(&m)
-			}
-		}
+	for i, off := range offs {
+		m := uintptr(mod.text + uintptr(off))
+		out[i] = Function(&m)
 	}
 	return
 }
